@@ -178,9 +178,9 @@ class RustGen:
 
     def ty(self, e):
         if isinstance(e, str):
-            return {'any': 'ANY', 'soi': 'SOI', 'eoi': 'EOI', 'newline': 'NEWLINE', 'peek': "PEEK<'i>", 'pop': "POP<'i>",
-                    'drop': 'DROP', 'peekall': "PEEK_ALL<'i>", 'popall': "POP_ALL<'i>", 'empty': "Empty<'i>",
-                    'fail': "AlwaysFail<'i>"}[e]
+            return 'pn::' + {'any': 'ANY', 'soi': 'SOI', 'eoi': 'EOI', 'newline': 'NEWLINE', 'peek': "PEEK<'i>", 'pop': "POP<'i>",
+                             'drop': 'DROP', 'peekall': "PEEK_ALL<'i>", 'popall': "POP_ALL<'i>", 'empty': "Empty<'i>",
+                             'fail': "AlwaysFail<'i>"}[e]
         t = e[0]
         if t == 'str':
             return 'Str<%s>' % self.wrapper(e[1])
@@ -258,6 +258,7 @@ class RustGen:
         return '''// generated by vlib/texpr.py -- environment %(name)s
 #![allow(non_camel_case_types, dead_code, unused_imports, clippy::all)]
 use pest_typed::predefined_node::*;
+use pest_typed::predefined_node as pn;
 use pest_typed::sequence::*;
 use pest_typed::choices::*;
 use pest_typed::{AsInput, TypedNode};
